@@ -17,8 +17,8 @@ import Ufw.Tie.CrcLoops.BufferU16
 #print axioms Ufw.Tie.CrcLoops.index_eq
 #print axioms Ufw.Tie.CrcLoops.index_lt
 #print axioms Ufw.Tie.CrcLoops.combine_eq
-#print axioms Ufw.Tie.CrcLoops.gen_crc16_octet
 #print axioms Ufw.Tie.CrcLoops.sx0
+#print axioms Ufw.Tie.CrcLoops.gen_crc16_octet
 #print axioms Ufw.Tie.CrcLoops.loop1_spec
 #print axioms Ufw.Tie.CrcLoops.gen_ufw_crc16_arc
 #print axioms Ufw.Tie.CrcLoops.gen_ufw_crc16_arc_oob
